@@ -95,7 +95,36 @@ def c16a(tree, ob):
         ob.violate(SEC, fv.qual, src(res)[:80], 'the result does not carry the COSE tag and encoding of the message built for this target', app)
 
 
+def key_lookup_contained(tree, ob):
+    ''' a key that is not there (unknown KID, chain that does not validate) is the failure of THAT message or recipient: the
+    lookup sits inside the try of the per-message verifier, whose handler answers "not verified".  Outside it the exception
+    leaves the verifier and takes down what should have gone on -- the other recipients of a wrapped-key message. '''
+    from ..cfg import handler_names
+    n = 0
+    for (r, qual, func) in tree.all_functions([SEC]):
+        for c in calls_in(func):
+            if not src(c).startswith('self._get_cose_key('):
+                continue
+            n += 1
+            prev = c
+            cur = getattr(c, '_parent', None)
+            held = False
+            while cur is not None and cur is not func:
+                if isinstance(cur, ast.Try) and any(prev is st or prev in ast.walk(st) for st in cur.body):
+                    if any((nm or 'BaseException').split('.')[-1] in ('Exception', 'BaseException') for h in cur.handlers for nm in handler_names(h)):
+                        held = True
+                prev = cur
+                cur = getattr(cur, '_parent', None)
+            if held:
+                ob.site(SEC, c, qual + ': key lookup inside the try of the message verifier')
+            else:
+                ob.violate(SEC, qual, src(c)[:70] + ' outside try/except', 'a key lookup that fails (unknown KID, unvalidated chain) raises out of the per-message verifier instead of failing that message or '
+                           'recipient only: a wrapped-key message whose first recipient is for someone else cannot be opened by the recipient that follows', c, sure=True)
+    ob.require(n >= 4, 'key lookups in the verifiers: {}'.format(n))
+
+
 def c16b(tree, ob):
+    key_lookup_contained(tree, ob)
     fv = FuncView(tree, SEC, 'CoseContext.verify_bcb_target')
     var = 'plaintext'
     for (st, v) in norm.local_assigns(fv.func, var):
@@ -207,13 +236,13 @@ def c16f(tree, ob):
                 bad = 'the copy ({}) is made outside the per-target loop, so every target stamps the same object'.format(src(dst)[:50])
         if bad:
             ob.violate(SEC, fv.qual, src(st), bad + ': all operations of one template end up with the last block number; that block is processed repeatedly and the '
-                       'other targets are listed in the BCB but stay in the clear', st)
+                       'other targets are listed in the BCB but stay in the clear', st, sure=True)
         else:
             ob.site(SEC, st, 'block number stamped into a copy made in the same iteration')
     for a in apps:
         loop = enclosing(a, ast.For)
         inner = [st for st in stamps if enclosing(st, ast.For) is loop and st.targets[0].value.id == a.args[0].id]
         if not inner:
-            ob.violate(SEC, fv.qual, src(a), 'an operation is handed out without its own block number', a)
+            ob.violate(SEC, fv.qual, src(a), 'an operation is handed out without its own block number', a, sure=True)
         else:
             ob.site(SEC, a, 'appended operation is the one stamped in this iteration')
